@@ -6,29 +6,29 @@
 
 package actionlint
 
-//@ folded_keys map[string]ExprType
+//@ folded_keys map[string]ExprType also C05
 //@ folded_keys map[string][]*FuncSignature
-//@ folded_keys map[string]*Job
-//@ folded_keys map[string]*Output
-//@ folded_keys map[string]*Input
+//@ folded_keys map[string]*Job also C05
+//@ folded_keys map[string]*Output also C05
+//@ folded_keys map[string]*Input also C14
 //@ folded_keys map[string]*EnvVar
-//@ folded_keys map[string]*MatrixRow
-//@ folded_keys map[string]*MatrixAssign
+//@ folded_keys map[string]*MatrixRow also C05
+//@ folded_keys map[string]*MatrixAssign also C05
 //@ folded_keys map[string]RawYAMLValue
 //@ folded_keys map[string]*Service
-//@ folded_keys map[string]*DispatchInput
-//@ folded_keys map[string]*WorkflowCallEventSecret
-//@ folded_keys map[string]*WorkflowCallEventOutput
-//@ folded_keys map[string]*WorkflowCallInput
-//@ folded_keys map[string]*WorkflowCallSecret
-//@ folded_keys map[string]*jobNode
-//@ folded_keys map[string]*UntrustedInputMap
-//@ folded_keys UntrustedInputSearchRoots
-//@ folded_keys ActionMetadataInputs
-//@ folded_keys ActionMetadataOutputs
-//@ folded_keys ReusableWorkflowMetadataInputs
-//@ folded_keys ReusableWorkflowMetadataSecrets
-//@ folded_keys ReusableWorkflowMetadataOutputs
+//@ folded_keys map[string]*DispatchInput also C05
+//@ folded_keys map[string]*WorkflowCallEventSecret also C05
+//@ folded_keys map[string]*WorkflowCallEventOutput also C05
+//@ folded_keys map[string]*WorkflowCallInput also C14
+//@ folded_keys map[string]*WorkflowCallSecret also C14
+//@ folded_keys map[string]*jobNode also C18
+//@ folded_keys map[string]*UntrustedInputMap also C11
+//@ folded_keys UntrustedInputSearchRoots also C11
+//@ folded_keys ActionMetadataInputs also C14
+//@ folded_keys ActionMetadataOutputs also C14
+//@ folded_keys ReusableWorkflowMetadataInputs also C14
+//@ folded_keys ReusableWorkflowMetadataSecrets also C14
+//@ folded_keys ReusableWorkflowMetadataOutputs also C14
 
 // string fields and slices that hold lower-cased names
 //@ folded WorkflowCallEventInput.ID
